@@ -19,6 +19,9 @@ func main() {
 	flag.IntVar(&cfg.Reps, "reps", 8, "builds per scenario")
 	flag.StringVar(&cfg.Families, "families", "", "family digits, cycled (default mix)")
 	flag.BoolVar(&cfg.PermAll, "permall", false, "repetitions = all arrival permutations of up to five competitors")
+	flag.BoolVar(&cfg.Pipeline, "pipeline", false, "stream `pipe`: in-fragment scenarios (harness/c02 generator) in several arrival orders")
+	flag.IntVar(&cfg.Orders, "orders", 4, "arrival orders per scenario (stream pipe)")
+	flag.IntVar(&cfg.Only, "only", -1, "stream pipe: emit only scenario I, with its objects")
 	dump := flag.Int("dump", -1, "print the objects of scenario I as JSON and exit")
 	mkcorpus := flag.String("mkcorpus", "", "write the hand-built regression scenarios into this directory and exit")
 	replay := flag.String("replay", "", "run one scenario from a JSON array of objects")
@@ -30,6 +33,10 @@ func main() {
 				os.Exit(2)
 			}
 		}
+		return
+	}
+	if cfg.Pipeline {
+		c14.RunPipeline(cfg, os.Stdout)
 		return
 	}
 	if *replay != "" {
